@@ -1273,3 +1273,24 @@ def c12e(F, R):
                 r = r["recv"]
         if n == 0:
             R.ok(f"{fname}|no-filter", detail="no neighbour filter in the meets")
+
+
+@rule("C02", "C02.f.argument-return-inference", floor=2)
+def c02f(F, R):
+    """a function's inferred arguments are entry live-out ∩ argument registers, its returns exit live-in ∩ return registers"""
+    fm = inherent_methods(F, FUNC)
+    spec = {"arguments": ({"live_out", "argument_set"}, "entry"), "returns": ({"live_in", "return_set"}, "exit")}
+    for name, (need, end) in spec.items():
+        p = fm.get(name)
+        if not p:
+            R.bad(f"{name}|missing", f"Function::{name} not found")
+            continue
+        f = F.fn(p)
+        body = peel(f["hir"]["value"])
+        calls = {short(callee_of(c) or "") for c in walk(body, pats=False) if c.get("k") in ("MethodCall", "Call")}
+        uses_end = any((c.get("k") == "Field" and c["name"] == end) or (c.get("k") == "MethodCall" and c["name"] == end) for c in walk(body, pats=False))
+        ands = [b for b in walk(body, pats=False) if b.get("k") == "Binary"]
+        if need <= calls and uses_end and len(ands) == 1 and ands[0]["op"] == "BitAnd":
+            R.ok(name, detail=f"{name}() = {end}.{sorted(need)[0] if 'live' in sorted(need)[0] else sorted(need)[1]}() & {[n for n in need if n.endswith('_set')][0]}()")
+        else:
+            R.bad(name, f"Function::{name} is no longer `{end}.{[n for n in need if n.startswith('live')][0]}() & Register::{[n for n in need if n.endswith('_set')][0]}()` (calls {sorted(calls)}, ops {[b['op'] for b in ands]})", f["sp"])
